@@ -39,10 +39,19 @@ def scen_cases(draw, kinds=KINDS, comps=("gzip", "zstd", "lz4", "xz", "default")
         rb_files = [(b"a0", first)] + [(b"b%d" % i, ("rand", 100 + i, 0, draw(st.integers(1400, 3000)))) for i in range(draw(st.integers(2, 4)))] + [(b"c9", first)]
         case["profile"] = "frag_readback"
         o["Q"] = draw(st.sampled_from([1, 3]))     # with the default backlog the first block would still be in flight
+    # directed input: 512 * 2^k + 1 inodes with --exportable - the export table (capacity 512, doubling) grows exactly when the
+    # root inode, the last one, is entered at the very end of the run
+    exp_edge = kind == "gen_file" and not readback and draw(st.sampled_from([False] * 9 + [True]))
+    if exp_edge:
+        case["profile"] = "export_table_grows_at_root"
+        o["e"] = True
     mk = lambda p, rec: dict(path=p, type="file", mode=0o644, uid=0, gid=0, mtime=0, xattrs={}, content=rec)
     if kind == "gen_dir":
         o.update(keep_time=draw(st.booleans()), keep_xattr=draw(st.booleans()), no_hard_links=False)
         case.update(mode="dir", nodes=[mk(p, r) for p, r in rb_files] if readback else small_tree(draw, "dir"))
+    elif kind == "gen_file" and exp_edge:
+        nn = 512 * draw(st.sampled_from([1, 1, 2])) + draw(st.sampled_from([0, 0, 0, -1, 1]))
+        case.update(mode="file", nodes=[dict(path=b"p%04d" % i, type="fifo" if i % 2 else "sock", mode=0o644, uid=0, gid=0, mtime=0, xattrs={}) for i in range(nn)])
     elif kind == "gen_file":
         case.update(mode="file", nodes=[mk(p, r) for p, r in rb_files] if readback else small_tree(draw, "file"))
         ents = [(n["path"], n["xattrs"]) for n in case["nodes"] if n.get("xattrs") and n["type"] != "hlink" and b"\r" not in n["path"]
